@@ -318,14 +318,38 @@ class Pools(object):
     formulas=["$id * 2", "{C0}"],
   )
 
+  MED = dict(
+    names=["Name", "Z", "def", "a b", "", "K"],
+    types=["Text", "Int", "Numeric", "Bool", "Any", "ChoiceList", "Ref:{T0}", "RefList:{T0}", "Date"],
+    vals=["x", "", None, 0, 5, 1.5, True, ["L", 2, 1], "2020-01-02"],
+    rows=["first", "last", "absent", "neg"],
+    formulas=["$id * 2", "rec.id +", "{C0}"],
+  )
+  TINY = dict(
+    names=["Z", "K"],
+    types=["Text", "RefList:{T0}"],
+    vals=["x", 2],
+    rows=["last", "absent"],
+    formulas=["{C0}"],
+    max_tables=2, max_cols=3,
+  )
+  MICRO = dict(
+    names=["Z"], types=["Text", "Numeric"], vals=["x", 2], rows=["last", "absent"], formulas=["{C0}"],
+    max_tables=1, max_cols=2,
+  )
+  max_tables = None
+  max_cols = None
+
   def __init__(self, size="full", kinds=None):
-    p = self.FULL if size == "full" else self.SMALL
+    p = {"full": self.FULL, "small": self.SMALL, "med": self.MED, "tiny": self.TINY, "micro": self.MICRO}[size]
     self.__dict__.update(p)
+    self.size = size
     self.kinds = kinds or ALL_KINDS
 
 
 RECORD_KINDS = ["UpdateRecord", "BulkUpdateRecord", "AddRecord", "BulkAddRecord", "RemoveRecord",
                 "BulkRemoveRecord"]
+# ReplaceTableData (an importer-only action) is generated only where a check asks for it (C27)
 SCHEMA_KINDS = ["AddColumn", "RemoveColumn", "RenameColumn", "ModifyType", "ModifyFormula", "RenameTable",
                 "RemoveTable", "AddTable", "AddReverseColumn", "MetaCol", "Summary"]
 ALL_KINDS = RECORD_KINDS + SCHEMA_KINDS
@@ -354,8 +378,24 @@ def gen_action(h, d, pfx, pools):
     name = h.choice(pfx + "name", pools.names)
     return ["AddTable", name, [{"id": "A", "type": "Text", "isFormula": False},
                                {"id": "B", "type": "Any", "isFormula": True, "formula": "$A"}]]
+  if pools.max_tables:
+    tables = tables[:pools.max_tables]
   t = h.choice(pfx + "table", tables)
   cols = d.columns(t)
+  if pools.max_cols and len(cols) > pools.max_cols:
+    # keep the first data columns and the first formula column
+    sc = d.e.schema[t].columns
+    fcols = [c for c in cols if sc[c].isFormula][:1]
+    cols = [c for c in cols if c not in fcols][:pools.max_cols - len(fcols)] + fcols
+  if kind == "ReplaceTableData":
+    rows = d.row_ids(t)
+    shape = h.choice(pfx + "shape", ["overlap", "fresh", "empty"])
+    ids = {"overlap": rows[-1:] + [(max(rows) if rows else 0) + 1], "fresh": [None, None], "empty": []}[shape]
+    dcols = [c for c in cols if not d.e.schema[t].columns[c].isFormula and c != "manualSort"]
+    if dcols and ids:
+      c = h.choice(pfx + "col", dcols)
+      return ["ReplaceTableData", t, ids, {c: [h.choice(pfx + "val", pools.vals)] * len(ids)}]
+    return ["ReplaceTableData", t, ids, {}]
   if kind in ("RenameTable",):
     return ["RenameTable", t, h.choice(pfx + "name", pools.names)]
   if kind == "RemoveTable":
